@@ -38,6 +38,9 @@ inductive Occurs (c : Ctx) (rt : String) : List Selection → FieldNode → Prop
 /-- `f` is stored in the groups `g`: in the group of its own response key -/
 def Stored (g : Groups) (f : FieldNode) : Prop := ∃ p ∈ g, p.1 = f.key ∧ f ∈ p.2
 
+/-- number of fragment definitions whose name is not in the visited list: the fuel `expandSpread` can still need -/
+def unvisited (c : Ctx) (vis : List String) : Nat := (c.frags.map (·.1)).countP (fun n => !vis.contains n)
+
 /-! ## Vocabulary for operation selection -/
 
 def isOperation : Definition → Bool
